@@ -8,6 +8,7 @@ with the geometry, layout and naming predicted from the specification.
 from __future__ import annotations
 
 import math
+import zlib
 
 import numpy as np
 
@@ -470,6 +471,9 @@ def _valid(rng, cls=None, small=False):
         elif rng.random() < 0.1:
             spec["virtual_rows"] = None
     spec.update(min_volume=mn, max_volume=mx)
+    if rng.random() < 0.25:
+        # the labware's own label is free text
+        spec["name"] = rng.choice(["Tris{pH8}", "buffer{1}", "wash}", "{", "50% EtOH", "a.b", "µ-plate", "%s", "plate 1", "x" * 32])
     present, iv = _as_layout(rng, spec["cls"], vol, R, C)
     if present:
         spec["initial_volumes"] = iv
@@ -682,12 +686,12 @@ def _construct(spec):
     if spec["cls"] == "Trough":
         if "names" in spec:
             kw["column_names"] = spec["names"]
-        return robotools.Trough("lw", spec["virtual_rows"], spec["columns"], **kw)
+        return robotools.Trough(spec.get("name", "lw"), spec["virtual_rows"], spec["columns"], **kw)
     if "names" in spec:
         kw["component_names"] = spec["names"]
     if "virtual_rows" in spec:
         kw["virtual_rows"] = spec["virtual_rows"]
-    return robotools.Labware("lw", spec["rows"], spec["columns"], **kw)
+    return robotools.Labware(spec.get("name", "lw"), spec["rows"], spec["columns"], **kw)
 
 
 def _summary(lw):
@@ -740,10 +744,33 @@ def run_case(ctx, case):
     R, C, V = exp["R"], exp["C"], exp["V"]
     multi = R * C > 1
     ctx.case(case, multi and exc is None)
-    if exc is not None:
+    if not ctx.check("representable_specification_is_constructed", exc is None, det):
         ctx.count(f"representable_refused:{cls}:{exp['layout']}")
         ctx.feature("representable_refused_with", f"{type(exc).__name__}: {str(exc)[:80]}")
         return
+    # the caller may use the same `component_names` mapping for a second labware (a layout shared by a plate
+    # and its replica): what the constructor did with it must not make that second, equally valid
+    # specification unrepresentable
+    nm = spec.get("names")
+    if isinstance(nm, dict) and nm and cls == "Labware" and exp["V"] is None and zlib.crc32(repr(sorted(nm)).encode()) % 3 == 0:
+        import robotools
+
+        # (which wells the CALLER named is read from the case, not from the mapping the constructor has seen)
+        keep = {k for k, v in (dec(case).get("names") or {}).items() if v is not None}
+        init2 = np.zeros((R, C))
+        for k in keep:
+            r_, c_ = ROWS.index(k[0]), int(k[1:]) - 1
+            if 0 <= r_ < R and 0 <= c_ < C:
+                init2[r_, c_] = min(1.0, float(spec["max_volume"]))
+        exc2 = None
+        try:
+            robotools.Labware("second", spec["rows"], spec["columns"], min_volume=spec["min_volume"], max_volume=spec["max_volume"],
+                              initial_volumes=init2, component_names=nm)
+        except Exception as e:
+            exc2 = e
+        ctx.count("names_mapping_reused_for_a_second_labware")
+        ctx.check("representable_specification_is_constructed", exc2 is None,
+                  lambda: dict(det(), second_labware_initial=init2.tolist(), second_raised=repr(exc2)))
     ctx.count(f"layout_accepted:{cls}:{exp['layout']}")
     ctx.count("accepted")
     if multi:
